@@ -194,6 +194,25 @@ def rule_attr_type(ctx, classes=SKETCH_CLASSES, only=None):
                        "" if okk else "self.%s is built with %r but feeds a %r parameter: larger inputs are truncated before the kernel sees them" % (sa, aty, need[0]))
 
 
+def rule_call_width(ctx, kernels):
+    """Kernel -> kernel calls: a typed scalar parameter forwarded to a callee is not narrowed by the callee's signature."""
+    F = facts_of(ctx)
+    for k in kernels:
+        for c in F.calls_from(k):
+            if not c.callee.is_kernel:
+                continue
+            for p, a in c.argmap.items():
+                if not isinstance(a, ast.Name):
+                    continue
+                sty, dty = k.ptypes.get(a.id), c.callee.ptypes.get(p)
+                if sty is None or dty is None or sty.is_array or dty.is_array or sty.kind not in ("uint", "int") or dty.kind not in ("uint", "int"):
+                    continue
+                okk = dty.bits >= sty.bits and dty.kind == sty.kind
+                ctx.ob("call-width", k, c.node, "%s(%s=%s: %r -> %r)" % (c.callee.name, p, a.id, sty, dty),
+                       "a forwarded parameter keeps its full width in the callee", okk,
+                       "" if okk else "`%s` (%r) is truncated to %r by %s's signature" % (a.id, sty, dty, c.callee.name))
+
+
 # ---------------------------------------------------------------------------
 # ceil
 # ---------------------------------------------------------------------------
